@@ -13,7 +13,8 @@ from vlib import hx
 V = Union[None, bool, int, str]
 
 ATOMS = ['a="x"', 'b=1', 'c=true', 'a!=null', 'b!=2', 'c!=false', 'a=null', 'b=-3', 'c=null', 'a!="y z"',
-         'b=1.5', 'a=""', 'b=9007199254740993', 'b!=1e2']
+         'b=1.5', 'a=""', 'b=9007199254740993', 'b!=1e2',
+         'order=1', 'android!=true', 'd="  "', 'origin=null']
 SKELETONS_Q = ['{0}', '{0} and {1}', '{0} or {1}', '{0} and {1} or {2}', '{0} or {1} and {2}',
                '({0} or {1}) and {2}', '{0} and ({1} or {2})', '({0})', '(({0} and {1}))',
                '{0} or {1} or {2}', '{0} and {1} and {2}']
@@ -144,13 +145,18 @@ def _ref_eval(e, attrs):
 PARSED = {}
 for _e in expressions():
     _f, _errs = parse_route_attr_filter(_e)
-    assert not _errs, (_e, _errs)
-    PARSED[_e] = (_f, _parse(_tokens(_e)))
+    PARSED[_e] = (_f, _parse(_tokens(_e)), _errs)      # a listed (well-formed) expression that does not parse is a violation
 
 
-I3 = Tuple[int, int, int]
-S3 = Tuple[str, str, str]
-B12 = Tuple[bool, bool, bool, bool, bool, bool, bool, bool, bool, bool, bool, bool]
+def _names(e):
+    if e[0] == 'atom':
+        return {e[1]}
+    return _names(e[1]) | _names(e[2])
+
+
+I3 = Tuple[int, int, int, int]
+S3 = Tuple[str, str, str, str]
+B12 = Tuple[bool, bool, bool, bool, bool, bool, bool, bool, bool, bool, bool, bool, bool, bool, bool, bool]
 
 
 @hx.harness(props=['C19'], targets=['stone.cli_helpers:FilterExprPredicate.eval'], items=expressions,
@@ -164,10 +170,12 @@ def filter_eval(i: I3, s: S3, b: B12) -> bool:
     pre: all(len(x) <= 3 for x in s)
     post: _
     """
-    flt, ref = PARSED[hx.ITEM]
+    flt, ref, errs = PARSED[hx.ITEM]
+    if errs or flt is None:
+        return hx.ok(False)
     pool = hx.Pool(ints=i, strs=s, bools=b)
     attrs = {}
-    for name in ('a', 'b', 'c'):
+    for name in sorted(_names(ref)):
         if pool.bool():
             attrs[name] = pool.j()
     want = _ref_eval(ref, attrs)
